@@ -245,6 +245,8 @@ func build(c *vlib.Ctx, shape string) *scen {
 			sp.Preimages = nil
 			return true
 		}
+		s.tamper["fnd-append"] = func() bool { a := addrC; t.NewFoundationAddress = &a; return true }
+		s.tamper["fnd-append-void"] = func() bool { a := types.VoidAddress; t.NewFoundationAddress = &a; return true }
 		s.tamper["timelocked-policy"] = func() bool {
 			// the same keys behind a weaker lock: another policy, another address
 			sp.Policy = types.PolicyThreshold(2, []types.SpendPolicy{types.PolicyAbove(0), types.PolicyPublicKey(k.PK("A"))})
@@ -466,6 +468,8 @@ func build(c *vlib.Ctx, shape string) *scen {
 		s.tamper["in2-sig-zero"] = func() bool { sp2.Signatures[0] = types.Signature{}; return true }
 		s.tamper["in2-sig-extra"] = func() bool { sp2.Signatures = append(sp2.Signatures, sp2.Signatures[0]); return true }
 		s.tamper["other-key"] = func() bool { signAll("X"); return true }
+	case "v2mgmt":
+		v2pay(11, k.Policy("M"), []string{"M"}, nil)
 	case "v2ephemeral":
 		v2pay(-1, k.Custom["PK"], []string{"A"}, nil)
 	case "v2uc":
